@@ -249,12 +249,14 @@ def build(ctx):
     obs.append(Obligation("bounds.regularize.one", "regularize_initial_guess([g_M]): the same for the one-parameter form", regularize(False), [FC + "Bounds.regularize_initial_guess"], "SMT", regularize_replay))
 
     # ---- fit
-    def run_fit(with_tau, hiM=b, hiT=d):
+    def run_fit(with_tau, hiM=b, hiT=d, fitted_before=False):
         F = ctx.engine.cls(FC + "ForecasterOnePhase")
         n = tm.var("n", tm.I)
         def mkargs():
             o = ObjV(F)
             o.fields = {"rf_curve": RF, "bounds": bounds_obj(ctx, (a, hiM), (c, hiT))}
+            if fitted_before:
+                o.fields.update({"M_": tm.var("M_of_earlier_fit"), "tau_": tm.var("tau_of_earlier_fit")})
             tt = ArrV((n,), lambda i: tm.app("t_data", i), "f8")
             cc = ArrV((n,), lambda i: tm.app("cum_data", i), "f8")
             return [o, tt, cc] + ([tau] if with_tau else []), {}
@@ -329,6 +331,62 @@ def build(ctx):
     obs.append(Obligation("fit.p0_feasible", "under Bounds.valid() the initial guess handed to curve_fit satisfies its precondition (no ValueError path is feasible), two- and one-parameter forms", fit_ob("p0"), fsf, "SMT", fit_replay))
     obs.append(Obligation("fit.within_bounds", "after fit(): M_ within bounds.M and (two-parameter form) tau_ within bounds.tau", fit_ob("within"), fsf, "SMT", fit_replay))
     obs.append(Obligation("fit.fixed_tau", "fit(t, cum, tau=x) stores tau_ == x", fit_ob("fixed"), fsf, "SMT", fit_replay))
+
+    def fit_function_of_args():
+        """fit(t, cum[, tau]) on a forecaster that has been fitted before poses the optimiser the SAME problem as on a fresh one:
+        same paths, and starting point / bounds / data free of the earlier result (the optimiser's answer depends on its start)"""
+        stale = ("M_of_earlier_fit", "tau_of_earlier_fit")
+        v = None
+        for with_tau in (False, True):
+            fresh, again = run_fit(with_tau), run_fit(with_tau, fitted_before=True)
+            if [o.kind for o in fresh] != [o.kind for o in again]:
+                return be.Verdict(be.REFUTED, "FRAME", witness={}, detail=f"fit() takes other paths on a forecaster that was fitted before ({[o.kind for o in again]} against {[o.kind for o in fresh]})")
+            for o1, o2 in zip(fresh, again):
+                c1, c2 = o1.heap["ghost"].get("curve_fit", []), o2.heap["ghost"].get("curve_fit", [])
+                if len(c1) != len(c2):
+                    return be.Verdict(be.REFUTED, "FRAME", witness={}, detail="a different number of optimiser calls on a forecaster that was fitted before")
+                for k1, k2 in zip(c1, c2):
+                    for part in ("p0", "lo", "hi"):
+                        for t1, t2 in zip(k1[part], k2[part]):
+                            if t2 is None or t1 is None:
+                                continue
+                            used_ = sorted({v_.args[0] for v_ in tm.free_vars(t2)} & set(stale))
+                            if used_:
+                                return with_models(be.Verdict(be.REFUTED, "FRAME", witness={}, detail=f"the {'starting point' if part == 'p0' else 'bounds'} handed to curve_fit depend on {used_}: fit() is not a function of its arguments (a re-used forecaster starts the search from its previous answer: {str(t2)[:160]})"), o2)
+                            if t1 is not t2:
+                                v = be.prove_smt(tm.eq(t1, t2), [valid] + list(o2.pc) + list(o2.facts), timeout_ms=5000)
+                                if v.status != be.PROVED:
+                                    v.detail = f"curve_fit {part} differs between a fresh and a re-used forecaster: " + (v.detail or "")
+                                    return with_models(v, o2)
+                for c_ in list(o2.pc):
+                    used_ = sorted({v_.args[0] for v_ in tm.free_vars(c_)} & set(stale))
+                    if used_:
+                        return with_models(be.Verdict(be.REFUTED, "FRAME", witness={}, detail=f"a branch of fit() depends on {used_}"), o2)
+        return be.Verdict(be.PROVED, "FRAME", detail="starting point, bounds and branches of fit() are free of the stored result of an earlier fit, two- and one-parameter forms")
+
+    def fit_again_replay(w):
+        import numpy as np
+        Fc, Bd = real(FC + "ForecasterOnePhase"), real(FC + "Bounds")
+        rf = lambda x: np.tanh(np.sqrt(x))
+        wells = [(300.0, 3.0, np.linspace(0.05, 6.0, 80)), (4.0e4, 1500.0, np.linspace(15.0, 1800.0, 120)), (3.0e6, 9000.0, np.linspace(30.0, 5400.0, 200)), (120.0, 0.8, np.linspace(0.01, 2.0, 60))]
+        for tau_mode in ("fitted", "supplied"):
+            shared = Fc(rf)
+            for Mtrue, tautrue, tt in wells + wells[::-1]:
+                cum = Mtrue * rf(tt / tautrue)
+                res = []
+                for fc in (Fc(rf), shared):
+                    try:
+                        fc.fit(tt, cum) if tau_mode == "fitted" else fc.fit(tt, cum, tau=tautrue)
+                        res.append((float(fc.M_), float(fc.tau_)))
+                    except Exception as e:  # noqa: BLE001
+                        res.append(f"{type(e).__name__}: {e}")
+                ok = isinstance(res[0], tuple) and isinstance(res[1], tuple) and all(abs(x_ - y_) <= 1e-6 * max(1.0, abs(x_)) for x_, y_ in zip(res[0], res[1]))
+                if not ok:
+                    return {"reproduced": True, "input": {"sequence": "one forecaster fitted to several wells in turn, compared with a fresh forecaster per well", "tau": tau_mode, "well": {"M": Mtrue, "tau": tautrue, "window": [float(tt[0]), float(tt[-1])], "samples": len(tt)}},
+                            "observed": {"fresh forecaster (M_, tau_)": res[0], "re-used forecaster (M_, tau_)": res[1]}, "required": "the same fit: fit() is a function of the data, tau and the bounds"}
+        return {"reproduced": False}
+
+    obs.append(Obligation("fit.function_of_arguments", "fit() poses the optimiser the same problem (starting point, bounds, branches) whether or not the forecaster has been fitted before: nothing of an earlier result is read", fit_function_of_args, fsf, "FRAME", fit_again_replay))
 
     def canary():
         f = ctx.engine.func(FC + "Bounds.regularize_initial_guess")
